@@ -460,3 +460,73 @@ pub fn co_limit_forwarding() {
     assert!(Src { len: 1 }.take(2).concurrency_limit().is_none(), "C15: limit appears from nowhere");
     cover!(a == 0 && b == 3, "unlimited inner, limited outer");
 }
+
+// -------------------------------------------------------------------------------------------
+// `FromStream` (`stream.co()`): the real driver between a scripted kit stream and the harness
+// sink. C03: the source stream is abandoned after it returned None (asserted inside the
+// scripted stream, kit::on_poll); C15: the sink receives exactly the items the stream produced,
+// in order.
+impl Rec for crate::kit::Tok {
+    fn rec(self) -> (u8, u8) {
+        (self.seq, self.id)
+    }
+}
+
+pub fn run_from_stream(cap: usize, polls: usize) {
+    use crate::kit::*;
+    use futures_concurrency::prelude::*;
+    reset(1);
+    reset_log();
+    w().opts = 1; // a pending source wakes itself (or not: then the driver may legitimately stay pending)
+    let mut done = false;
+    {
+        let fut = Strm::new(0, cap).co().drive(Sink);
+        let mut fut = core::pin::pin!(fut);
+        assert!(polls <= 6);
+        crate::unroll_rounds!(r, polls, {
+            if !done {
+                let wk = parent_waker(r);
+                let mut cx = Context::from_waker(&wk);
+                begin_poll(r);
+                done = fut.as_mut().poll(&mut cx).is_ready();
+                end_poll();
+            }
+        });
+    }
+    let l = log();
+    if done {
+        assert!(w().done[0], "C03/C15: driver finished before the source stream ended");
+        assert!(l.flushed, "C15: consumer was not flushed");
+        assert!(l.nrecv == w().made[0] as usize, "C15: not every source item was processed exactly once");
+    }
+    let mut k = 0;
+    while k < LMAX {
+        if k < l.nrecv {
+            assert!(l.recv[k].0 as usize == k && l.recv[k].1 == 0, "C15: items not processed in source order");
+        }
+        k += 1;
+    }
+    w().decided = true;
+    report();
+    cover!(done && l.nrecv == cap, "driver finished with every item processed");
+    cover!(!done, "driver still pending");
+}
+
+#[cfg(kani)]
+#[kani::proof]
+#[kani::unwind(6)]
+pub fn co_from_stream_k1_p3() {
+    run_from_stream(1, 3);
+}
+#[cfg(kani)]
+#[kani::proof]
+#[kani::unwind(6)]
+pub fn co_from_stream_k0_p2() {
+    run_from_stream(0, 2);
+}
+#[cfg(kani)]
+#[kani::proof]
+#[kani::unwind(7)]
+pub fn co_from_stream_k2_p5() {
+    run_from_stream(2, 5);
+}
